@@ -588,29 +588,54 @@ theorem exWF : WF exDefs [exLA, exLB] where
     intro l _ t h l' _ t' h' c hc
     rcases exDefs_cases h with ⟨rfl, rfl⟩ | ⟨rfl, rfl⟩ <;> simp [exTA, exTB] at hc
 
+theorem exT_adm : ∀ l ∈ [exLA, exLB], ∀ t, exW.defs l = some t → (realAdm exRender exU).tgt t := by
+  intro l _ t h
+  rcases exDefs_cases h with ⟨rfl, rfl⟩ | ⟨rfl, rfl⟩
+  · exact exTA_adm
+  · exact exTB_adm
+
+theorem exInOk : InOk (realAdm exRender exU) exW.defs [exLA, exLB] exW.fs := by
+  intro l _ t h p hp v hv
+  simp only [exW] at hv
+  split at hv
+  · simp only [Option.some.injEq] at hv; subst hv; exact ⟨by unfold Small; decide, by show ([7] : Bytes).length ≤ 4; decide⟩
+  · cases hv
+
 /-- **a non-empty instance of `build_eq_clean_real`**: the two-target build over the real key, from an empty cache,
     succeeds, and `//b`'s output is the content of `//a`'s input. -/
 theorem ex_build_succeeds :
     succeeded (build (realParams exRender exRun Fixes.current) ⟨true, false⟩ exW [exLA, exLB]) [exLA, exLB] = true ∧
     (build (realParams exRender exRun Fixes.current) ⟨true, false⟩ exW [exLA, exLB]).fs [12] = some [7] := by
-  have hT : ∀ l ∈ [exLA, exLB], ∀ t, exW.defs l = some t → (realAdm exRender exU).tgt t := by
-    intro l _ t h
-    rcases exDefs_cases h with ⟨rfl, rfl⟩ | ⟨rfl, rfl⟩
-    · exact exTA_adm
-    · exact exTB_adm
-  have hin : InOk (realAdm exRender exU) exW.defs [exLA, exLB] exW.fs := by
-    intro l _ t h p hp v hv
-    simp only [exW] at hv
-    split at hv
-    · simp only [Option.some.injEq] at hv; subst hv; exact ⟨by unfold Small; decide, by show ([7] : Bytes).length ≤ 4; decide⟩
-    · cases hv
-  have h := build_eq_clean_real exRender exRun Fixes.current exU exRealKey rfl ⟨true, false⟩ rfl exW [exLA, exLB] exWF hT hin
+  have h := build_eq_clean_real exRender exRun Fixes.current exU exRealKey rfl ⟨true, false⟩ rfl exW [exLA, exLB] exWF exT_adm exInOk
     (cacheSoundK_empty _ _) exW.fs (fun _ _ => rfl)
   have hspec : ∀ l ∈ [exLA, exLB], (Spec.clean exRun exW.defs exW.fs [exLA, exLB]).ok l = some true := by decide
   have hs := h.1.2 hspec
   refine ⟨hs, ?_⟩
   rw [h.2 hs exLB (by simp) exTB (by simp [exW, exDefs, exLA, exLB]) [12] (by simp [outPaths, exTB, exOB])]
   decide
+
+/-- a non-empty history satisfying the hypotheses of `cacheSound_preserved_real` -/
+example : HistOKK (realParams exRender exRun Fixes.current) (realAdm exRender exU) exW [.build ⟨true, false⟩ [exLA, exLB]] :=
+  ⟨⟨rfl, exWF, exT_adm, exInOk⟩, trivial⟩
+
+theorem exPlain : Plain (realParams exRender exRun Fixes.current) ⟨true, false⟩ exW.defs [exLA, exLB] :=
+  ⟨rfl, rfl, rfl, rfl, fun l _ t h => by rcases exDefs_cases h with ⟨rfl, rfl⟩ | ⟨rfl, rfl⟩ <;> rfl⟩
+
+/-- **a non-empty instance of `noop_rebuild_real`**: after the two-target build above, the same build again — whatever
+    sits at the two output paths — executes nothing. -/
+theorem ex_noop_rebuild (fs' : FS) (hfs : ∀ p, p ≠ [11] → p ≠ [12] →
+      fs' p = (build (realParams exRender exRun Fixes.current) ⟨true, false⟩ exW [exLA, exLB]).fs p) :
+    executed (build (realParams exRender exRun Fixes.current) ⟨true, false⟩
+      { exW with fs := fs', cache := (build (realParams exRender exRun Fixes.current) ⟨true, false⟩ exW [exLA, exLB]).cache }
+      [exLA, exLB]) = [] := by
+  apply noop_rebuild_real exRender exRun Fixes.current exU exRealKey ⟨true, false⟩ exW [exLA, exLB] exWF exT_adm exInOk exPlain
+    ex_build_succeeds.1 fs'
+  intro p hp
+  apply hfs p
+  · intro e; subst e
+    exact hp exLA (by simp) exTA (by simp [exW, exDefs]) (by simp [outPaths, exTA, exOA])
+  · intro e; subst e
+    exact hp exLB (by simp) exTB (by simp [exW, exDefs, exLA, exLB]) (by simp [outPaths, exTB, exOB])
 
 end instantiated
 
